@@ -531,10 +531,52 @@ def check_set(dv, node, root, x, report, fresh):
     return 1
 
 
+MODELLED_RAISES = {
+    # callee -> the raise sites the escape analysis knows how to exclude, as (exception, atom that must guard it)
+    "FIXContainer.add_group": [("FIXMessageError", "isinstance(group, FIXContainer)"), ("FIXMessageError", "isinstance(group_container, _FIXRepeatingGroupContainer)")],
+    "FIXContainer.set": [("FIXMessageError", None), ("DuplicatedTagError", "t in self.tags")],
+}
+
+
+def unmodelled_raises(repo, qual):
+    """Raise statements of a container method that are not in the modelled list (new failure modes the decoder does not guard)."""
+    from sa.cfg import CFG as _CFG
+    fn = repo.functions.get(qual)
+    if fn is None:
+        return []
+    g = _CFG(fn)
+    out = []
+    for n in g.nodes:
+        if n.kind == "stmt" and isinstance(n.ast, ast.Raise) and n.ast.exc is not None:
+            e = n.ast.exc.func if isinstance(n.ast.exc, ast.Call) else n.ast.exc
+            name = unparse(e).split(".")[-1]
+            atoms = {a for t, lab in g.guards(n.id, exc=True) for a, tv in facts(t, lab == "true")}
+            in_handler = any(isinstance(p, ast.ExceptHandler) for p in _ancestors(n.ast))
+            ok = False
+            for exc, atom in MODELLED_RAISES.get(qual, []):
+                if exc == name and (atom is None and in_handler or atom is not None and any(atom in a for a in atoms)):
+                    ok = True
+            if not ok:
+                out.append((name, n.ast, sorted(atoms)[:3]))
+    return out
+
+
+def _ancestors(node):
+    p = getattr(node, "_parent", None)
+    while p is not None:
+        yield p
+        p = getattr(p, "_parent", None)
+
+
 def check_add_group(dv, node, root, x, report):
     """add_group(tag, ctx) raises when the tag exists as a simple tag: group-opening tags must never be
     stored with set() - every set(tag) is dominated by the 'not a group tag' edge of the dispatch."""
     g, fn = dv.cfg, dv.fn
+    for q in ("FIXContainer.add_group", "FIXContainer.set"):
+        for name, rnode, atoms in unmodelled_raises(dv.repo, q):
+            if not handler_catches(x, fn, {name}):
+                report(x, f"callee[{q} raises {name}]", f"{q} has a failure mode the decoder does not exclude or catch: `{short(rnode)}` under {atoms} - "
+                                                      "frame text that triggers it makes decode(silent=True) raise and wedges the reader", None)
     table_names = {unparse(n.targets[0]) for n in walk_no_nested(fn) if isinstance(n, ast.Assign) and "repeating_groups" in unparse(n.value)
                    and isinstance(n.targets[0], ast.Name)}
     bad = []
